@@ -196,8 +196,46 @@ def seed_rules(an: Analysis, rep):
             diffs.append(f"block={bt and dict(bt)}: decoder seeds={d}, encoder seeds={e}")
     rep.add("R09.2", "docstring seed guards agree", not diffs, loc(g.module, st),
             "; ".join(diffs) if diffs else f"decoder guard {norm_src(dtest)} == encoder guard {norm_src(es['test'])} on every block type")
-    # varnames seeds: the decoder pre-marks as many leading slots as the encoder pre-assigns (same multiset of Args fields)
     from . import c04
+    # the same two counts folded over Args models: how many leading slots the decoder pre-marks == how many the encoder pre-assigns
+    try:
+        from sa.feval import FevalError as _FE, Obj as _Obj
+        dec_cnt = enc_seq = None
+        dfn = efn = None
+        for g2 in an.closure("from_code"):
+            for n in ast.walk(g2.node):
+                if isinstance(n, ast.DictComp) and isinstance(n.key, ast.Name) and isinstance(n.value, ast.Name) and n.key.id == n.value.id \
+                        and isinstance(n.generators[0].iter, ast.Call) and getattr(n.generators[0].iter.func, "id", "") == "range" and len(n.generators[0].iter.args) == 1:
+                    dec_cnt, dfn = n.generators[0].iter.args[0], g2
+        for g2 in an.closure("to_code"):
+            for n in ast.walk(g2.node):
+                if isinstance(n, ast.For) and isinstance(n.iter, ast.Call) and getattr(n.iter.func, "id", "") == "enumerate" and len(n.body) == 1 \
+                        and isinstance(n.body[0], ast.Assign) and isinstance(n.body[0].targets[0], ast.Subscript) and any(isinstance(a, ast.Attribute) and a.attr == "args" for a in ast.walk(n.iter.args[0])):
+                    enc_seq, efn = n.iter.args[0], g2
+        if dec_cnt is not None and enc_seq is not None:
+            dparam = next((x.id for x in ast.walk(dec_cnt) if isinstance(x, ast.Name) and x.id in dfn.params), None)
+            ebase = next((a.value.id for a in ast.walk(enc_seq) if isinstance(a, ast.Attribute) and a.attr == "args" and isinstance(a.value, ast.Name)), None)
+            models = [{"positional_only": (), "positional_or_keyword": ("a",), "var_positional": None, "keyword_only": ("k",), "var_keyword": None},
+                      {"positional_only": ("p",), "positional_or_keyword": ("a", "b"), "var_positional": "va", "keyword_only": ("k",), "var_keyword": "kw"},
+                      {"positional_only": (), "positional_or_keyword": (), "var_positional": None, "keyword_only": (), "var_keyword": None},
+                      {"positional_only": (), "positional_or_keyword": (), "var_positional": None, "keyword_only": ("k", "l"), "var_keyword": "kw"}]
+            if dparam and ebase:
+                dev = c04._args_evaluator(an, dfn)
+                eev = c04._args_evaluator(an, efn)
+                diffs2 = []
+                for mdl in models:
+                    nd = dev(dec_cnt, dparam, mdl)
+                    ne = len(tuple(eev(enc_seq, ebase, {"args": _Obj(mdl)})))
+                    if nd != ne:
+                        shown = ", ".join(f"{k}={v!r}" for k, v in mdl.items() if v)
+                        diffs2.append(f"Args({shown}): the decoder pre-marks {nd} slot(s), the encoder pre-assigns {ne}")
+                rep.add("R09.2", "parameter seeds have the same length on both sides (folded over Args models)", not diffs2, loc(dfn.module, dec_cnt),
+                        f"`{norm_src(dec_cnt)}` == len(`{norm_src(enc_seq)[:40]}`) on {len(models)} models" if not diffs2 else
+                        f"{diffs2[0]}: the first local after the parameters counts as already met - when no instruction uses it (`return n; a = 1`) it is not listed as unreferenced and vanishes "
+                        f"from co_varnames, otherwise every later local gets a position override")
+    except (_FE, KeyError, TypeError, AttributeError) as ex:
+        raise AnalysisError(f"parameter seed counts not evaluable: {ex}")
+    # varnames seeds: the decoder pre-marks as many leading slots as the encoder pre-assigns (same multiset of Args fields)
     dec_fields = enc_fields = None
     dec_order = enc_order = None
     dec_where = loc(f.module, f.node)
@@ -492,6 +530,40 @@ def table_sequences_rule(an: Analysis, rep, rule="R09.7"):
             bad_rank.append(f"table {T}, indices met {seq}: stops at `{norm_src(o.node)[:70]}`")
         except (FevalError, KeyError, IndexError, TypeError, AttributeError) as e:
             raise AnalysisError(f"{ci.qual}: table methods not evaluable on the witness sequences ({type(e).__name__}: {e})")
+    # a value that occurs twice in the table cannot be found again by value: from its second occurrence on it has to keep its position
+    # (two equal constants CPython kept apart - 0.0 / -0.0 are not equal, but nan objects are; a hand-altered co_names with a repeated name)
+    bad_dup = []
+    for TD, seq in ((("a", "b", "a"), [0, 1, 2]), (("a", "a"), [1, 0]), (("x", "y", "y", "x"), [0, 1, 2, 3])):
+        ev = ObjEval(resolve, extra={}, methods=methods)
+        ev.module_assigns = ci.module.assigns
+        obj = Obj()
+        try:
+            first = True
+            for fl in ci.fields:
+                if fl.default_factory is not None:
+                    obj[fl.name] = ev.ev(ast.Call(func=fl.default_factory, args=[], keywords=[]), {})
+                elif fl.default is not None:
+                    obj[fl.name] = ev.ev(fl.default, {})
+                elif first:
+                    obj[fl.name] = TD
+                    first = False
+            if "__post_init__" in methods:
+                ev.call_method(methods["__post_init__"], obj)
+            seen_vals = set()
+            for i in seq:
+                got = ev.call_method(rank.node, obj, i)
+                later = TD[i] in seen_vals
+                seen_vals.add(TD[i])
+                if later and (not isinstance(got, tuple) or got[1] != i):
+                    bad_dup.append(f"table {TD}, indices met in the order {seq}: `{rank.name}({i})` gives {got!r} - entry {i} repeats the value of an entry met before and carries no position")
+        except BlockOutcome as o:
+            bad_dup.append(f"table {TD}: stops at `{norm_src(o.node)[:60]}`")
+        except (FevalError, KeyError, IndexError, TypeError, AttributeError) as e:
+            raise AnalysisError(f"{ci.qual}: table methods not evaluable on a table with a repeated entry ({type(e).__name__}: {e})")
+    rep.add(rule, f"{rank.qual}::a repeated entry keeps its position", not bad_dup, loc(rank.module, rank.node),
+            "on tables with a repeated value the later occurrence gets its index as override" if not bad_dup else
+            f"{bad_dup[0]}: the encoder finds entries again by value, so both operands are encoded as the first occurrence and the table comes out one entry short "
+            f"(two NaN constants; a hand-altered co_names ('print', 'print') - co_names shrinks, silently)")
     rep.add(rule, f"{rank.qual}::first-use rank on witness call sequences", not bad_rank, loc(rank.module, rank.node),
             bad_rank[0] if bad_rank else f"{len(SEQS)} call sequences over a table of {len(T)} distinct entries: entry and override as specified on every call")
     rep.add(rule, f"{unref.qual}::unreferenced entries on witness call sequences", not bad_unref, loc(unref.module, unref.node),
